@@ -33,6 +33,8 @@ for ntr, ncores, pre, pad in ((1, 1, 2, 1), (1, 2, 3, 1), (2, 2, 3, 1), (3, 2, 2
 fam('dispatch-t2-c2', 'h_dispatch', NTRIALS=2, witness=True, opts={'nprocs': 2, 'max_preempt': 1})
 for ntr, ncores in ((1, 2), (3, 2)):
     fam('dispatch-perfn-t%d-c%d' % (ntr, ncores), 'h_dispatch_perfn', NTRIALS=ntr, opts={'nprocs': ncores, 'max_preempt': 2}, w=2)
+for ntr, ncores in ((1, 2), (2, 2), (3, 1)):
+    fam('dispatch-twice-t%d-c%d' % (ntr, ncores), 'h_dispatch_twice', NTRIALS=ntr, opts={'nprocs': ncores, 'max_preempt': 1}, w=3)
 fam('isolation', 'h_isolation', w=6)
 fam('isolation', 'h_isolation', witness=True, w=6)
 fam('dispatch-t4-c3-p3', 'h_dispatch', tier='thorough', NTRIALS=4, opts={'nprocs': 3, 'max_preempt': 3}, w=40)
